@@ -31,7 +31,6 @@ import (
 	"github.com/sassoftware/relic/v8/lib/cabfile"
 	"github.com/sassoftware/relic/v8/lib/certloader"
 	"github.com/sassoftware/relic/v8/lib/signxap"
-	"github.com/sassoftware/relic/v8/lib/zipslicer"
 	"github.com/sassoftware/relic/v8/signers"
 	"github.com/sassoftware/relic/v8/signers/sigerrors"
 	_ "github.com/sassoftware/relic/v8/verifharness/allsigners"
@@ -268,19 +267,28 @@ func (d *drv) classify(format string, err error, pan bool) (int, string) {
 	return 3, cut(msg)
 }
 
-// xapDigest: zipslicer.ZipToTar piped into signxap.DigestXapTar, as zipbased.Transform + signers/xap.sign do.
+// xapDigest: the registered XAP signer's own transformer (signers/xap xapTransformer.GetReader: signxap.TrailerSize +
+// zipslicer.ZipToTarTrailer since relic commit 956170e) piped into signxap.DigestXapTar, as signers/xap.sign does.
 func (d *drv) xapDigest(fh *os.File, h crypto.Hash) (*signxap.XapDigest, error) {
-	// a private handle per run: ZipToTar seeks on it from its own goroutine
+	// a private handle per run: the producer reads it from its own goroutine
 	f2, err := os.Open(fh.Name())
 	if err != nil {
 		panic(err)
 	}
 	defer f2.Close()
-	r, w := io.Pipe()
-	done := make(chan struct{})
-	go func() { _ = w.CloseWithError(zipslicer.ZipToTar(f2, w)); close(done) }()
-	defer func() { r.Close(); <-done }()
-	return signxap.DigestXapTar(r, h, false)
+	mod := signers.ByName("xap")
+	tr, err := mod.GetTransform(f2, signers.SignOpts{Path: fh.Name(), Hash: h})
+	if err != nil {
+		return nil, err
+	}
+	stream, err := tr.GetReader()
+	if err != nil {
+		return nil, err
+	}
+	if cl, ok := stream.(io.Closer); ok {
+		defer cl.Close() // unblocks the producer when the digest gives up early
+	}
+	return signxap.DigestXapTar(stream, h, false)
 }
 
 // ---------------------------------------------------------------- signing steps
@@ -599,6 +607,9 @@ func (d *drv) cabInputs(n int) []input {
 	le.PutUint32(w[8:], 24)
 	w = append(w, 0xd0, 0xd1, 0xd2, 0xd3)
 	add("witness-overlap", w)
+	// the minimal input of the repaired defect cab:signs-what-it-cannot-verify (relic commit 6b49488): coffFiles = cbCabinet = 35
+	rg, _ := hex.DecodeString("4d534346843b85c5230000005c9ed53a2300000072aa8f2803010000000000009b350100")
+	add("regress-layout", rg)
 	return ins
 }
 
@@ -672,6 +683,13 @@ func (d *drv) xapInputs(n int) []input {
 	}
 	for _, k := range []int{0, 9, 10, 21, 22, 41, 42} {
 		add("short", bytes.Repeat([]byte{0x50}, k))
+	}
+	// the layout behind theorem xap_law_hashin_refuted: a signed file whose end record gives a directory offset that points
+	// behind the zip part, into the existing signature block (outside the stated domain)
+	for _, k := range []int64{1, 5, 18} {
+		zb := writeZip(&zipSpec{})
+		le.PutUint32(zb[len(zb)-6:], uint32(int64(len(zb))+k))
+		add("witness-dir-in-signature", append(append([]byte{}, zb...), xapTrailerBytes([]byte{}, 1, 1, 1, 0, 0, 0x53706158)...))
 	}
 	return ins
 }
